@@ -161,10 +161,10 @@ Lemma is_sp_not_nl : forall c, is_sp c = true -> is_nl c = false.
 Proof. intros c H. apply Z.eqb_eq in H. subst. reflexivity. Qed.
 
 Lemma strip_cons : forall c r,
-  strip_whitespace (c :: r) = if is_sp c then strip_whitespace r else c :: strip_whitespace r.
-Proof. intros c r. unfold strip_whitespace. cbn [filter]. destruct (is_sp c); reflexivity. Qed.
+  remove_spaces (c :: r) = if is_sp c then remove_spaces r else c :: remove_spaces r.
+Proof. intros c r. unfold remove_spaces. cbn [filter]. destruct (is_sp c); reflexivity. Qed.
 
-Lemma count_nl_strip : forall b, count_nl (strip_whitespace b) = count_nl b.
+Lemma count_nl_strip : forall b, count_nl (remove_spaces b) = count_nl b.
 Proof.
   induction b as [|c r IH]; [reflexivity|].
   rewrite strip_cons. cbn [count_nl]. destruct (is_sp c) eqn:Es.
@@ -172,7 +172,7 @@ Proof.
   - cbn [count_nl]. destruct (is_nl c); now rewrite IH.
 Qed.
 
-Lemma has_nl_strip : forall b, has_nl (strip_whitespace b) = has_nl b.
+Lemma has_nl_strip : forall b, has_nl (remove_spaces b) = has_nl b.
 Proof.
   induction b as [|c r IH]; [reflexivity|].
   rewrite strip_cons. unfold has_nl in *. cbn [existsb]. destruct (is_sp c) eqn:Es.
@@ -186,7 +186,7 @@ Proof.
   apply orb_false_iff in H as [H1 H2]. rewrite H1. unfold has_nl. now rewrite H2.
 Qed.
 
-Lemma last_seg_strip : forall b, last_seg (strip_whitespace b) = strip_whitespace (last_seg b).
+Lemma last_seg_strip : forall b, last_seg (remove_spaces b) = remove_spaces (last_seg b).
 Proof.
   induction b as [|c r IH]; [reflexivity|].
   rewrite strip_cons. cbn [last_seg]. destruct (is_sp c) eqn:Es.
@@ -215,7 +215,7 @@ Proof.
     now rewrite (Hall _ _ Hn He).
 Qed.
 
-Lemma strip_nil_iff : forall s, strip_whitespace s = [] <-> forallb is_sp s = true.
+Lemma strip_nil_iff : forall s, remove_spaces s = [] <-> forallb is_sp s = true.
 Proof.
   induction s as [|c r IH]; [cbn; tauto|].
   rewrite strip_cons. cbn [forallb]. destruct (is_sp c); cbn [andb]; [exact IH|]. split; discriminate.
@@ -224,45 +224,45 @@ Qed.
 (* The exact effect of WhitespaceIgnore on the number of lines the diff sees: one line less precisely when the
    last line is non-empty and made of spaces only, and no change otherwise. *)
 Theorem strip_loc_exact : forall b,
-  length (split_lines (strip_whitespace b)) + (if last_blank b then 1 else 0) = length (split_lines b).
+  length (split_lines (remove_spaces b)) + (if last_blank b then 1 else 0) = length (split_lines b).
 Proof.
   intros b. rewrite !split_lines_spec, !length_lines_of, count_nl_strip, !ends_open_last_seg, last_seg_strip.
   unfold last_blank. destruct (last_seg b) as [|c s] eqn:E; [cbn; lia|].
   destruct (forallb is_sp (c :: s)) eqn:Ef.
   - apply strip_nil_iff in Ef. rewrite Ef. cbn. lia.
-  - destruct (strip_whitespace (c :: s)) eqn:Es; [apply strip_nil_iff in Es; congruence|]. cbn. lia.
+  - destruct (remove_spaces (c :: s)) eqn:Es; [apply strip_nil_iff in Es; congruence|]. cbn. lia.
 Qed.
 
-(* With the option off nothing is stripped; with the option on the diff and the line counter agree on every text
-   blob outside the class of the finding. *)
-Theorem diff_loc_agrees : forall ws b, textb b = true -> (ws = false \/ last_blank b = false) ->
-  count_lines b = Lines (diff_loc ws b).
+(* BEFORE the repair (commit 3944bd2): with the option off nothing is stripped; with the option on the diff and the
+   line counter agreed on every text blob outside the class of the finding ... *)
+Theorem diff_loc_agrees_before_fix : forall ws b, textb b = true -> (ws = false \/ last_blank b = false) ->
+  count_lines b = Lines (diff_loc_before_fix ws b).
 Proof.
-  intros ws b Ht H. rewrite (count_split b Ht). f_equal. unfold diff_loc, strip.
+  intros ws b Ht H. rewrite (count_split b Ht). f_equal. unfold diff_loc_before_fix, strip_before_fix.
   destruct ws; [|reflexivity]. destruct H as [H|H]; [discriminate|].
   pose proof (strip_loc_exact b) as E. rewrite H in E. lia.
 Qed.
 
-(* ... and inside that class they always disagree, by exactly one line *)
-Theorem diff_loc_disagrees : forall b, textb b = true -> last_blank b = true ->
-  count_lines b = Lines (S (diff_loc true b)).
+(* ... and inside that class they always disagreed, by exactly one line *)
+Theorem diff_loc_disagrees_before_fix : forall b, textb b = true -> last_blank b = true ->
+  count_lines b = Lines (S (diff_loc_before_fix true b)).
 Proof.
-  intros b Ht H. rewrite (count_split b Ht). f_equal. unfold diff_loc, strip.
+  intros b Ht H. rewrite (count_split b Ht). f_equal. unfold diff_loc_before_fix, strip_before_fix.
   pose proof (strip_loc_exact b) as E. rewrite H in E. lia.
 Qed.
 
-(* The unconditional clause is false with WhitespaceIgnore: witness "é\n  " (finding F9). *)
+(* The unconditional clause was false with WhitespaceIgnore: witness "é\n  " (finding F9). *)
 Definition f9_witness : bytes := [195; 169; 10; 32; 32]%Z.
 
-Theorem strip_refuted :
-  exists b, textb b = true /\ count_lines b = Lines 2 /\ diff_loc true b = 1 /\ diff_loc false b = 2.
+Theorem strip_refuted_before_fix :
+  exists b, textb b = true /\ count_lines b = Lines 2 /\ diff_loc_before_fix true b = 1 /\ diff_loc_before_fix false b = 2.
 Proof. exists f9_witness. vm_compute. repeat split; reflexivity. Qed.
 
 (* ---------------------------------------------------------------- stripping and splitting commute *)
 
 Definition nonempty (l : bytes) : bool := match l with [] => false | _ => true end.
 
-Lemma strip_keeps : forall l c, last_byte l = Some c -> is_sp c = false -> strip_whitespace l <> [].
+Lemma strip_keeps : forall l c, last_byte l = Some c -> is_sp c = false -> remove_spaces l <> [].
 Proof.
   induction l as [|x l IH]; intros c Hl Hc; [discriminate|].
   rewrite strip_cons. destruct l as [|y l'].
@@ -272,7 +272,7 @@ Qed.
 
 (* the lines of the stripped blob are the stripped lines of the blob, minus a last line that was spaces only *)
 Theorem lines_of_strip : forall b,
-  lines_of (strip_whitespace b) = filter nonempty (map strip_whitespace (lines_of b)).
+  lines_of (remove_spaces b) = filter nonempty (map remove_spaces (lines_of b)).
 Proof.
   induction b as [|c r IH]; [reflexivity|].
   rewrite strip_cons. cbn [lines_of]. destruct (is_sp c) eqn:Es.
@@ -285,7 +285,7 @@ Proof.
     + rewrite IH. destruct (lines_of r) as [|l ls] eqn:Er.
       * cbn [map filter]. rewrite strip_cons, Es. reflexivity.
       * cbn [map filter]. rewrite (strip_cons c l), Es. cbn [nonempty].
-        destruct (strip_whitespace l) as [|x l'] eqn:El; [|reflexivity].
+        destruct (remove_spaces l) as [|x l'] eqn:El; [|reflexivity].
         cbn [nonempty].
         destruct ls as [|l2 ls2]; [reflexivity|].
         exfalso. pose proof (lines_of_cons_ends r l l2 ls2 Er) as Hl.
@@ -303,14 +303,14 @@ Proof.
 Qed.
 
 Theorem split_lines_strip : forall b, last_blank b = false ->
-  split_lines (strip_whitespace b) = map strip_whitespace (split_lines b).
+  split_lines (remove_spaces b) = map remove_spaces (split_lines b).
 Proof.
   intros b H. pose proof (strip_loc_exact b) as E. rewrite H in E.
   rewrite !split_lines_spec in *. rewrite lines_of_strip in *.
   apply filter_same_length. rewrite map_length. lia.
 Qed.
 
-(* ---------------------------------------------------------------- the candidate repair of F9 *)
+(* ---------------------------------------------------------------- stripWhitespace as repaired (current code) *)
 
 Lemma count_nl_app : forall x y, count_nl (x ++ y) = count_nl x + count_nl y.
 Proof. induction x as [|c x IH]; intros y; [reflexivity|]. cbn. destruct (is_nl c); rewrite IH; lia. Qed.
@@ -322,28 +322,28 @@ Proof.
 Qed.
 
 Lemma last_byte_strip : forall b c, last_byte b = Some c -> is_sp c = false ->
-  last_byte (strip_whitespace b) = Some c.
+  last_byte (remove_spaces b) = Some c.
 Proof.
   induction b as [|x b IH]; intros c Hl Hc; [discriminate|].
   rewrite strip_cons. destruct b as [|y b'].
   - cbn in Hl. injection Hl as ->. now rewrite Hc.
   - rewrite last_byte_cons in Hl. specialize (IH c Hl Hc).
     destruct (is_sp x); [exact IH|].
-    destruct (strip_whitespace (y :: b')) as [|z t]; [discriminate|]. now rewrite last_byte_cons.
+    destruct (remove_spaces (y :: b')) as [|z t]; [discriminate|]. now rewrite last_byte_cons.
 Qed.
 
-(* with the repair the diff and the line counter agree on EVERY blob *)
-Theorem strip_fixed_loc : forall b,
-  length (split_lines (strip_whitespace_fixed b)) = length (split_lines b).
+(* the diff and the line counter agree on EVERY blob *)
+Theorem strip_loc : forall b,
+  length (split_lines (strip_whitespace b)) = length (split_lines b).
 Proof.
-  intros b. rewrite !split_lines_spec, !length_lines_of. unfold strip_whitespace_fixed.
+  intros b. rewrite !split_lines_spec, !length_lines_of. unfold strip_whitespace.
   destruct (last_byte b) as [c|] eqn:Hl.
   - destruct (is_sp c) eqn:Es.
     + assert (Eb : ends_open b = true) by (unfold ends_open; rewrite Hl, (is_sp_not_nl _ Es); reflexivity).
       rewrite Eb.
       assert (Snoc : forall r, count_nl (r ++ [32%Z]) + (if ends_open (r ++ [32%Z]) then 1 else 0) = count_nl r + 1).
       { intros r. rewrite count_nl_app. unfold ends_open. rewrite last_byte_snoc. cbn. lia. }
-      destruct (last_byte (strip_whitespace b)) as [d|] eqn:Hr.
+      destruct (last_byte (remove_spaces b)) as [d|] eqn:Hr.
       * destruct (is_nl d) eqn:Ed.
         -- rewrite Snoc, count_nl_strip. reflexivity.
         -- rewrite count_nl_strip. unfold ends_open. rewrite Hr, Ed. reflexivity.
@@ -352,6 +352,18 @@ Proof.
   - destruct b as [|x b']; [reflexivity|]. destruct (last_byte_some x b') as [d Hd]. congruence.
 Qed.
 
-Theorem strip_fixed_agrees : forall b, textb b = true ->
-  count_lines b = Lines (length (split_lines (strip_whitespace_fixed b))).
-Proof. intros b Ht. rewrite strip_fixed_loc. now apply count_split. Qed.
+Theorem diff_loc_agrees : forall ws b, textb b = true -> count_lines b = Lines (diff_loc ws b).
+Proof.
+  intros ws b Ht. unfold diff_loc, strip. destruct ws; [rewrite strip_loc|]; now apply count_split.
+Qed.
+
+(* the line identifiers after the shift of commit 742df3d: still distinct, never a UTF-16 surrogate, and valid code
+   points as long as there are fewer than 1 112 064 - 2 048 distinct lines *)
+Theorem shift_id_spec : forall i j : Z,
+  (shift_id i = shift_id j -> i = j)
+  /\ ~ (55296 <= shift_id i <= 57343)%Z
+  /\ (0 <= i < 1112064 - 2048 -> 0 <= shift_id i <= 1114111)%Z.
+Proof.
+  intros i j. unfold shift_id.
+  destruct (Z.leb_spec 55296 i); destruct (Z.leb_spec 55296 j); repeat split; lia.
+Qed.
